@@ -227,6 +227,8 @@ def run(chk, ctx):
     tsres, _n = tsrules.timestamp_operands(ctx)
     for cons, okk, why in tsres:
         chk.ob('C10.L', cons, okk, why, site='pamqp/encode.py::timestamp')
+    for cons, okk, why in tsrules.timestamp_decode_rule(ctx):
+        chk.ob('C10.P', cons, okk, why, site='pamqp/decode.py::timestamp')
     # key truncation must be announced
     truncation_check(chk, ctx)
     chk.assume('values of foreign types that subclass the guarded types '
@@ -286,6 +288,18 @@ def truncation_check(chk, ctx):
     """Key truncation in the table writer is accompanied by the warning."""
     prog = ctx.prog
     fi = prog.function('encode.field_table')
+    # ... on every call: a caching wrapper would replay the bytes without
+    # the warning
+    from .. import models
+    caching, unknown_deco = models.wrappers(
+        prog, prog.module('encode').functions.values())
+    chk.ob('C10.L', 'encode side wrappers', not caching,
+           'no caching wrapper in pamqp.encode (the truncation warning is '
+           'logged on every call)' if not caching else
+           'cached: %s (a replayed result carries no warning)' % caching)
+    if unknown_deco:
+        chk.undecide('C10.L', 'decorators without a model',
+                     '; '.join(unknown_deco[:3]))
     pol = tables.ArmPolicy(prog, {fi.qualname})
     it, outs = codec.run(prog, fi, None, pol)
     site = '%s:%d' % (fi.module.relpath, fi.node.lineno)
